@@ -589,7 +589,8 @@ impl DbPool {
         db_type: DbKind,
     ) -> Result<(), ServerError> {
         if db_type != DbKind::Memory {
-            let backup_temp = db_backup_dir(owner, &self.config).join(db);
+            // must not be a name another db's backup ("<db>.bak") can have
+            let backup_temp = db_backup_dir(owner, &self.config).join(format!("{db}.tmp"));
             std::fs::rename(current_path, &backup_temp)?;
             std::fs::rename(&backup_path, current_path)?;
             std::fs::rename(backup_temp, backup_path)?;
